@@ -2,6 +2,7 @@
 //! (tier C). The packet's header fields are symbolic; the socket is an established-looking socket
 //! whose state is overwritten per harness.
 // @requires stream_dispatch__vs.rs
+// @requires stream_tx_segments__seg.rs
 #![allow(unused_imports, dead_code, static_mut_refs)]
 use super::verif_stream_dispatch__vs::*;
 use super::*;
@@ -203,7 +204,7 @@ fn fin_step(st: VirtualSocketState, rel: i16) {
     }
     if wait_states && in_seq {
         assert!(t.vsock.last_consumed_remote_seq_nr == SeqNr(seq), "C17: an in-sequence FIN is consumed (and therefore acknowledged)");
-        assert!(t.vsock.consumed_but_unacked_bytes == usize::MAX, "C07: a FIN forces an immediate ACK");
+        assert!(t.vsock.consumed_but_unacked_bytes >= 2 * 65535, "C07: a FIN forces an immediate ACK that no later change of the segment size can cancel");
         assert!(closed_for_writer, "C03: the writer learns that the peer closed");
         assert!(unsafe { AR_CALLS == 1 && AR_IS_FIN && AR_OFFSET == 0 }, "C03: the end-of-stream marker is queued at the FIN's own position (offset 0 = next in order), exactly once");
         let want = match st {
@@ -272,6 +273,14 @@ fin_instance!(vs_pim_fin_established_behind, VirtualSocketState::Established, -1
 // @unwindset make_tx_at=9,__vs::record=37
 // @tier C
 fin_instance!(vs_pim_fin_finwait1_in_seq, VirtualSocketState::FinWait1 { our_fin: SeqNr(OUR_SEQ.wrapping_sub(1)) }, 0);
+
+// @verif id=VS.pim.fin.fw1.p1 props=C17,C03,C04 tier=quick timeout=1200 mem=16
+// @functions VirtualSocket::process_incoming_message (ST_FIN)
+// @bounds state FinWait1 (own FIN = OUR_SEQ-1); FIN one AHEAD of the next expected number, ANY ack_nr (including one that acknowledges our FIN: simultaneous close with a data packet still missing)
+// @asserts a FIN is honoured only in sequence: nothing changes at all, whatever it acknowledges
+// @unwindset make_tx_at=9,__vs::record=37
+// @tier C
+fin_instance!(vs_pim_fin_finwait1_ahead, VirtualSocketState::FinWait1 { our_fin: SeqNr(OUR_SEQ.wrapping_sub(1)) }, 1);
 
 // @verif id=VS.pim.fin.fw2 props=C17,C03,C04 tier=quick timeout=1200 mem=16
 // @functions VirtualSocket::process_incoming_message (ST_FIN)
@@ -353,7 +362,7 @@ fn vs_pim_data_packet() {
     assert!(t.vsock.last_consumed_remote_seq_nr == SeqNr(pos), "C04: the acknowledgement position advances by exactly the in-order sequence numbers consumed, never backwards");
     if rel < 0 {
         assert!(unsafe { AR_CALLS } == 0, "C01: a packet behind the cumulative position never reaches the reassembly queue");
-        assert!(t.vsock.consumed_but_unacked_bytes == usize::MAX, "C07: a duplicate forces an immediate ACK");
+        assert!(t.vsock.consumed_but_unacked_bytes >= 2 * 65535, "C07: a duplicate forces an immediate ACK that no later change of the segment size can cancel");
         assert!(sent_n() == 0, "C07: the forced ACK is emitted by the ACK step of the same poll");
     } else {
         assert!(unsafe { AR_CALLS == 1 && AR_OFFSET == rel as usize && !AR_IS_FIN && AR_PLEN == 3 },
@@ -361,7 +370,7 @@ fn vs_pim_data_packet() {
         let disorder = !was_empty || !empty_after;
         if disorder {
             if pending {
-                assert!(sent_n() == 0 && t.vsock.consumed_but_unacked_bytes == usize::MAX, "C07: with a blocked transport the immediate ACK stays pending for the next poll");
+                assert!(sent_n() == 0 && t.vsock.consumed_but_unacked_bytes >= 2 * 65535, "C07: with a blocked transport the immediate ACK stays pending for the next poll (whatever the segment size becomes)");
             } else {
                 assert!(sent_n() == 1, "C07: an out-of-order or gap-filling packet is acknowledged immediately, in the same call");
                 let (sh, sn) = sent_header(0).unwrap();
@@ -381,5 +390,72 @@ fn vs_pim_data_packet() {
         }
     }
     finish(t);
+}
+}
+
+// ---- cumulative ACK of in-flight data: ring truncation and writer wake-up ---------------------------
+
+// shared body of VS.pam.ack / VS.pam.dup
+fn ack_frees_step(dup_data: bool) {
+    use crate::stream_tx_segments::verif_stream_tx_segments__seg::segments_with;
+    let mut t = make_vsock(VirtualSocketState::Established, VsConfig { link_mtu: 52, rx_buf: 12, nagle: true, ring: (8, 3, 6), tx_max: 8 });
+    {
+        let old = std::mem::replace(&mut t.vsock.user_tx_segments, segments_with::<1>(OUR_SEQ, [4], 0b1, 9_900, false));
+        std::mem::forget(old);
+    }
+    t.vsock.last_sent_seq_nr = SeqNr(OUR_SEQ);
+    t.vsock.seq_nr = SeqNr(OUR_SEQ.wrapping_add(1));
+    t.vsock.rto_retransmissions = 1;
+    t.vsock.timers.retransmit = Timer::Armed { expires_at: now_at(T0_US + 100_000) };
+    t.vsock.user_tx.locked.write().writer_waker = Some(crate::verif_lib__support::waker(W_WRITER));
+    // either a bare state packet, or a DUPLICATE data packet (sequence number already consumed) that is
+    // the first datagram to acknowledge our segment
+    let h = hdr(if dup_data { Type::ST_DATA } else { Type::ST_STATE }, PEER_LAST, OUR_SEQ);
+    inbox_push(&t, UtpMessage { header: h, data: if dup_data { vec![7u8, 8] } else { Vec::new() } });
+    let w = cx_waker();
+    let mut cx = Context::from_waker(&w);
+    let r = t.vsock.process_all_incoming_messages(&mut cx);
+    let ok = r.is_ok();
+    std::mem::forget(r);
+    assert!(ok, "C10: an ordinary acknowledgement is processed without error");
+    assert!(t.vsock.user_tx_segments.is_empty() && t.vsock.user_tx_segments.total_len_bytes() == 0, "C01: the acknowledged segment leaves the queue");
+    {
+        use ringbuf::traits::Consumer;
+        let c = t.vsock.user_tx.consumer.lock();
+        let (a, b) = c.as_slices();
+        assert!(a.len() + b.len() == 2, "C19: exactly the acknowledged bytes are released from the send buffer");
+        let first = if a.len() > 0 { a[0] } else { b[0] };
+        assert!(first == t.ring_model[4], "C01: the unacknowledged bytes keep their content and order");
+    }
+    assert!(crate::verif_lib__support::wakes(W_WRITER) == 1, "C19: a blocked writer is woken as soon as acknowledgements free space");
+    assert!(unsafe { CC_ACKED } == 4, "C15: the controller is credited with the acknowledged bytes");
+    assert!(t.vsock.rto_retransmissions == 0, "C05: new data acknowledged ends the single-segment RTO mode");
+    assert!(t.vsock.timers.retransmit == Timer::Idle, "C06: with nothing outstanding the retransmission timer stops");
+    assert!(t.vsock.last_remote_window == h.wnd_size, "C05: advertised window recorded");
+    kani::cover!(true, "end of harness reachable (assumptions satisfiable, no unconditional failure)");
+    finish(t);
+}
+
+// @verif id=VS.pam.ack props=C19,C02,C01,C06 tier=quick timeout=1500 mem=16
+// @functions VirtualSocket::process_all_incoming_messages, VirtualSocket::process_incoming_message (ST_STATE), Segments::remove_up_to_ack, UserTx::truncate_front, RttEstimator::sample, MockCc::on_ack
+// @bounds established socket, MSS 4; ONE 4-byte segment in flight (sent once, 100 ms ago) over 6 buffered bytes; a blocked writer registered; one ST_STATE packet in the inbox acknowledging exactly that segment (ack_nr = its sequence number, across the 16-bit wrap), ANY window/timestamps
+// @asserts the acknowledged 4 bytes - and only those - are removed from the FRONT of the send buffer (2 bytes stay, content preserved), the segment queue is empty, the blocked writer is woken as soon as the acknowledgement frees space, the controller is credited with 4 bytes, RTO mode is left, the retransmission timer stops
+// @unwindset make_tx_at=9,__vs::record=37
+crate::verif_tier_c! {
+#[kani::unwind(6)]
+fn vs_ack_frees_buffer_and_wakes_writer() {
+    ack_frees_step(false);
+}
+}
+
+// @verif id=VS.pam.dup props=C01,C19,C07 tier=quick timeout=1500 mem=16
+// @functions VirtualSocket::process_all_incoming_messages, VirtualSocket::process_incoming_message (ST_DATA duplicate arm), Segments::remove_up_to_ack, UserTx::truncate_front
+// @bounds as VS.pam.ack, but the acknowledging datagram is a DUPLICATE data packet (its sequence number was already consumed)
+// @asserts the acknowledgement carried by a duplicate is honoured exactly like any other: the acknowledged bytes leave the send buffer together with their segment (otherwise later segments would be cut from the wrong place of the buffer), the writer is woken
+// @unwindset make_tx_at=9,__vs::record=37
+crate::verif_tier_c! {
+#[kani::unwind(6)]
+fn vs_ack_on_duplicate_data_frees_buffer() {
+    ack_frees_step(true);
 }
 }
